@@ -17,7 +17,8 @@ define('B(f, i)', "intval(f.begin_of_fragments[i])")
 define('WF(f)',
        # B holds ints, pairwise non-decreasing
        "forall(0, len(f.begin_of_fragments), lambda i: isint(f.begin_of_fragments[i]) and not isbool(f.begin_of_fragments[i]))"
-       " and forall(lambda i, j: implies(0 <= i and i < j and j < len(f.begin_of_fragments), B(f, i) <= B(f, j)))"
+       " and forall(lambda i, j: implies(0 <= i and i < j and j < len(f.begin_of_fragments), B(f, i) <= B(f, j)),"
+       "            pat=lambda i, j: (f.begin_of_fragments[i], f.begin_of_fragments[j]))"
        # keys(F) = set(B)
        " and forall(0, len(f.begin_of_fragments), lambda i: B(f, i) in f.fragments)"
        " and forall(lambda q: implies(q in f.fragments,"
@@ -26,7 +27,7 @@ define('WF(f)',
        " and forall(lambda q: implies(q in f.fragments, q >= 0))"
        " and forall(lambda p, q: implies(p in f.fragments and q in f.fragments and p < q,"
        "        p + len(f.fragments[p]) <= q))"
-       " and len(f.fill) == 1")
+       " and len(f.fill) == 1 and allocated(f.begin_of_fragments)")
 # byte position p is occupied by a stored chunk
 define('occupied(f, p)',
        "exists(lambda q: q in f.fragments and q <= p and p < q + len(f.fragments[q]))")
@@ -43,7 +44,7 @@ add(Contract(
     params={'self': 'ref:Fragments', 'fill': 'bytes'},
     requires=["len(fill) == 1"],
     ensures=["WF(self)", "self.current_offset == 0", "forall(lambda q: not (q in self.fragments))",
-             "self.fill == fill", "len(self.begin_of_fragments) == 0"],
+             "self.fill == fill", "len(self.begin_of_fragments) == 0", "fresh_since(self.begin_of_fragments)"],
     modifies=['self.*'], allocates=True))
 CONTRACTS['fragments:Fragments.__init__'].defaults = {'fill': "b'.'"}
 
